@@ -224,6 +224,19 @@ def create_binders(f, cl):
     return out
 
 
+def _created_nothing(t, pol, node):
+    """the decision `<container>.empty()` taken as true after an insertion into that container: the insertion (of a
+    range) created nothing on this path"""
+    while t.startswith('!'):
+        t, pol = t[1:].strip(), not pol
+        if t.startswith('(') and t.endswith(')'):
+            t = t[1:-1]
+    if not pol or not t.endswith('.empty()') or not ir.is_call(node):
+        return False
+    r = ir.call_receiver(node)
+    return r is not None and ir.show(r) == t[:-len('.empty()')]
+
+
 def run_r1(chk, fns, G, only=None, min_count=None):
     """R1: every creation of nodes is followed on every path by their registration in the label lists"""
     # ---- R1 registration
@@ -293,6 +306,7 @@ def run_r1(chk, fns, G, only=None, min_count=None):
                     if isinstance(c, tuple):
                         continue
                     t = ir.show(c)
+                    pend = [n for n in pend if not _created_nothing(t, pol, n)]
                     # `if (ins.second)` false: the try_emplace bound to `ins` created nothing
                     if not pol:
                         pend = [n for n in pend if binders.get(id(n)) is None or t != binders[id(n)] + '.second']
@@ -612,6 +626,7 @@ def run_r3b(chk, fns, G, only=None, min_count=4):
                     t = ir.show(c)
                     if 'dimension_' in t and c.get('k') not in ('ForStmt', 'WhileStmt'):
                         ok = True
+                    pend = [x for x in pend if not _created_nothing(t, pol, x)]
                     if not pol:
                         pend = [x for x in pend if binders.get(id(x)) is None or t != binders[id(x)] + '.second']
             if pend and not ok and bad is None:
@@ -1200,7 +1215,8 @@ def run_r12(chk, fns, G, access):
 def run_r13(chk, fns):
     """R13 dimension from creation: where a function raises `dimension_` to a positive literal, the path has created
     the node that justifies it (insert_graph: the dimension is 1 because an edge was inserted, not because the graph
-    says it has edges - num_edges() of a graph adaptor counts the underlying graph), and R14: a non-negative value
+    says it has edges - num_edges() of a graph adaptor counts the underlying graph); where it sets it to 0, the path
+    knows that the tree has a member (not that the graph says it has vertices), and R14: a non-negative value
     computed from the recursion bookkeeping is only stored on a path that knows the tree has a member (a creation, an
     iteration over members, an emptiness test): an empty tree has dimension -1."""
     n13 = n14 = 0
@@ -1211,6 +1227,8 @@ def run_r13(chk, fns):
 
         def cl(x, cl0=cl0):
             ev = [e for e in cl0(x) if e == 'CREATE']
+            if ev and ir.is_call(x) and ir.call_name(x) == 'insert' and len(ir.call_args(x)) == 2:
+                ev = []     # the insertion of a range: creates nothing when the range is empty
             if ir.is_call(x) and ir.is_this_call(x) and ir.call_name(x) in ('insert_node_', 'siblings_expansion'):
                 ev.append('CREATE')
             if x.get('k') == 'BinaryOperator' and x.get('op') == '=' and \
@@ -1218,6 +1236,8 @@ def run_r13(chk, fns):
                 r = ir.skipcasts(x['c'][1])
                 if r is not None and r.get('k') == 'IntegerLiteral' and int(r.get('v', 0)) >= 1:
                     ev.append('DIMLIT')
+                elif r is not None and r.get('k') == 'IntegerLiteral' and int(r.get('v', 0)) == 0:
+                    ev.append('DIMZERO')
                 elif r is not None and r.get('k') != 'IntegerLiteral':
                     ev.append('DIMEXPR')
             return ev
@@ -1237,13 +1257,20 @@ def run_r13(chk, fns):
                     if c.get('k') in ('CXXForRangeStmt', 'ForStmt') and pol and 'members' in ir.show(
                             c.get('range') or c.get('cond') or {}):
                         nonempty = True          # one iteration over members
-                    if ('empty()' in t and not pol) or ('num_vertices' in t and '== 0' in t and not pol):
+                    # (what the *input* says about itself - num_vertices(graph) - is no evidence: a graph adaptor
+                    # counts the underlying graph)
+                    if 'members' in t and 'empty()' in t and 'num_vertices' not in t and \
+                            pol == t.replace(' ', '').startswith('!'):
                         nonempty = True
                 elif ev[0] == 'CREATE':
                     created = nonempty = True
                 elif ev[0] == 'DIMLIT':
                     s13 = True
                     if not created and bad13 is None:
+                        bad13 = ev[1]
+                elif ev[0] == 'DIMZERO':
+                    s13 = True
+                    if not nonempty and bad13 is None:
                         bad13 = ev[1]
                 elif ev[0] == 'DIMEXPR':
                     s14 = True
@@ -1267,10 +1294,17 @@ def run_r13(chk, fns):
     chk.expect_count('R14', 'computed dimension stores in expansion', n14, 1)
 
 
+WHOLE_COMPLEX = ('complex_simplex_range()',)
+
+
 def run_r10(chk, fns):
     """R10: `dimension_to_be_lowered_` says that `dimension_` is only an upper bound. It is cleared (`= false`) only on
-    a path that made the bound exact: the path writes `dimension_` (a recomputed value, or -1 for an emptied tree), or
-    it has found a simplex whose dimension reaches the bound (a decision `<something> >= dimension_` taken as true).
+    a path that made the bound exact: the last value the path wrote to `dimension_` is a recomputed one (an expression
+    over what was counted, or -1 for an emptied tree), or it has found a simplex whose dimension reaches the bound (a
+    decision `<something> >= dimension_` taken as true). A local that starts as a copy of `dimension_` is the stale
+    bound itself: writing it back proves nothing, and comparing the bound with it is a tautology; a plain local that
+    is written back counts when the path has decided that it reaches the former bound (`old <= local`) or when it is
+    accumulated in a loop over complex_simplex_range() (a recomputation over every simplex).
     Clearing the flag anywhere else freezes a stale upper bound: dimension() stays too large for ever."""
     n = 0
     for f in fns:
@@ -1279,7 +1313,6 @@ def run_r10(chk, fns):
 
         def cl(x):
             if x.get('k') == 'BinaryOperator' and x.get('op') == '=':
-                l = ir.this_field(x['c'][0]) if hasattr(ir, 'this_field') else None
                 lt = ir.show(x['c'][0]).replace('this->', '')
                 if lt == 'dimension_to_be_lowered_' and ir.show(x['c'][1]) == 'false':
                     return ['CLEAR']
@@ -1289,6 +1322,40 @@ def run_r10(chk, fns):
         if not ir.contains(f['body'], lambda y: 'CLEAR' in cl(y)):
             continue
         n += 1
+        stale = set()          # locals initialised with the bound itself
+        for x in ir.walk(f['body']):
+            if x.get('k') == 'VarDecl' and x.get('init') is not None and \
+                    ir.show(ir.skipcasts(x['init'])).replace('this->', '') == 'dimension_':
+                stale.add(x['n'])
+
+        whole = set()          # locals accumulated over every simplex of the complex: a recomputation
+        for lp in ir.walk(f['body']):
+            if lp.get('k') == 'CXXForRangeStmt' and ir.show(lp.get('range')).replace('this->', '') in WHOLE_COMPLEX:
+                for y in ir.walk(lp.get('body')):
+                    if y.get('k') == 'BinaryOperator' and y.get('op') == '=':
+                        t = ir.skipcasts(y['c'][0])
+                        if t is not None and t.get('k') == 'DeclRefExpr' and t.get('dk') == 'Var':
+                            whole.add(t['n'])
+
+        def local_name(e):
+            e = ir.skipcasts(e)
+            return e.get('n') if e is not None and e.get('k') == 'DeclRefExpr' and e.get('dk') == 'Var' else None
+
+        def reaches(c, pol, name):
+            """the decision says `old bound <= name`"""
+            c = ir.skipcasts(c)
+            while c is not None and c.get('k') == 'ParenExpr':
+                c = ir.skipcasts(c['c'][0])
+            if c is None or c.get('k') != 'BinaryOperator' or c.get('op') not in ('<=', '>=', '<', '>'):
+                return False
+            l, r = local_name(c['c'][0]), local_name(c['c'][1])
+            lt, rt = (ir.show(ir.skipcasts(y)).replace('this->', '') for y in c['c'])
+            old_l = l in stale or lt == 'dimension_'
+            old_r = r in stale or rt == 'dimension_'
+            op = c['op']
+            if not pol:
+                op = {'<=': '>', '>=': '<', '<': '>=', '>': '<='}[op]
+            return (op == '<=' and old_l and r == name) or (op == '>=' and l == name and old_r)
         ps = paths.enumerate_paths(f, cl, loop_mode='01', keep_conds=True, cap=20000)
         bad = None
         for p in ps:
@@ -1296,19 +1363,37 @@ def run_r10(chk, fns):
             if 'CLEAR' not in tags or p.end == 'throw':
                 continue
             reached = False
-            for c, pol, cx in p.conds:
-                if isinstance(c, tuple) or not pol:
-                    continue
-                t = ir.show(c).replace(' ', '').replace('this->', '')
-                if '>=dimension_' in t or '==dimension_' in t or t.strip('()').startswith('dimension_<='):
-                    reached = True
-            if 'DIMW' not in tags and not reached and bad is None:
+            last = None
+            decisions = []
+            for tag, node in p.events:
+                if tag == '?':
+                    c, pol = node[0], node[1]
+                    if isinstance(c, tuple):
+                        continue
+                    decisions.append((c, pol))
+                    if not pol:
+                        continue
+                    t = ir.show(c).replace(' ', '').replace('this->', '')
+                    if '>=dimension_' in t or '==dimension_' in t or t.strip('()').startswith('dimension_<='):
+                        reached = True
+                elif tag == 'DIMW':
+                    last = node
+            exact = False
+            if last is not None:
+                rhs = last['c'][1]
+                nm = local_name(rhs)
+                mentions_stale = ir.contains(rhs, lambda y: y.get('k') == 'DeclRefExpr' and y.get('n') in stale)
+                if nm is None:
+                    exact = not mentions_stale
+                elif nm not in stale:
+                    exact = any(reaches(c, pol, nm) for c, pol in decisions) or nm in whole
+            if not exact and not reached and bad is None:
                 bad = p
         chk.ob('R10-bound-exact', '%s clears dimension_to_be_lowered_ only on paths that made dimension_ exact'
                % f['name'], '%s:%d' % (rel(f['file']), f['line']), bad is None,
-               '' if bad is None else 'a path sets dimension_to_be_lowered_ = false without writing dimension_ and '
-               'without having met a simplex of dimension dimension_: a stale upper bound becomes the reported '
-               'dimension', key='R10|%s|bound-exact' % f['name'])
+               '' if bad is None else 'a path sets dimension_to_be_lowered_ = false with dimension_ last written from '
+               'the stale bound (or not at all) and without having met a simplex of dimension dimension_: a stale upper '
+               'bound becomes the reported dimension', key='R10|%s|bound-exact' % f['name'])
     chk.expect_count('R10', 'functions clearing dimension_to_be_lowered_', n, 4)
 
 
